@@ -11,11 +11,19 @@ PROP = dict(
                dict(fn=Q + "QFunction.check", rt_skip=True),
                dict(fn=Q + "QDict.check", rt_skip=True),
                dict(fn=Q + "QList.check", rt_skip=True),
-               dict(fn=Q + "_parse_token", rt_skip=True)],
+               dict(fn=Q + "_parse_token", rt_skip=True),
+               # leaves of the syntax tree: what the node holds is what the text says, and interpreting it yields just that
+               dict(fn=Q + "QInteger.parse", contract_key=Q + "QInteger.parse:value", rt_skip=True),
+               dict(fn=Q + "QString.parse", contract_key=Q + "QString.parse:value", rt_skip=True),
+               dict(fn=Q + "QVariable.parse", contract_key=Q + "QVariable.parse:value", rt_skip=True),
+               dict(fn=Q + "QInteger.interpret", rt_skip=True),
+               dict(fn=Q + "QString.interpret", rt_skip=True),
+               dict(fn=Q + "QVariable.interpret", rt_skip=True),
+               dict(fn=Q + "get_return", rt_skip=True)],
     timeout_s=20,
     extra=[lambda run: run.query_mode("c11", n=(400 if run.tier == "quick" else 8000))],
-    technique="run-time check of the real code (bounded); with the scanners proved lossless against contracts",
-    explanation="deductive (scanning is lossless): each of the six scanners returns (token, remainder) with token + remainder == input, and _parse_token returns a non-empty token of one of the six kinds and a remainder that together are exactly the stripped input - no character between tokens is dropped (the defect repaired in 0bc9d3c was exactly a dropped character after a bracketed token). That the parse functions build the value the text denotes, and the interpreter, are only bounded. " 
+    technique="run-time check of the real code (bounded); with the scanners proved lossless and the leaf nodes (integer, string, variable) proved to hold and yield what their text says, against contracts",
+    explanation="deductive (scanning is lossless): each of the six scanners returns (token, remainder) with token + remainder == input, and _parse_token returns a non-empty token of one of the six kinds and a remainder that together are exactly the stripped input - no character between tokens is dropped (the defect repaired in 0bc9d3c was exactly a dropped character after a bracketed token). Leaves of the syntax tree: QInteger.parse holds int(text), QString.parse the text between the quotes with escaped quotes of that kind unescaped, QVariable.parse the name and the value bound to it when the statement is parsed (None when unbound), without touching the namespace; QInteger / QString.interpret yield exactly the value held; QVariable.interpret yields the value held and rebinds it to the name, leaving every other binding alone, and raises QueryInterpretException - changing nothing - exactly when the name is not bound; get_return yields the binding of RETURN or raises QueryParseException exactly when there is none. That the composite parse functions (calls, lists, dicts) build the value the text denotes, their interpretation, and the statement loop of query() are only bounded. " 
                 "bounded: programs generated from the grammar (nested calls/lists/dicts as any argument, 0-3 arguments, rebinding, strings containing brackets, commas, quotes and '=') are evaluated by aw_query.query and by an independent recursive-descent reference parser/evaluator over the same built-ins; results must be equal, also after re-spacing around commas, colons, '=' and ';'.",
 )
 
@@ -25,4 +33,10 @@ MUTANTS = [
     (F, '        return token, string[len(token) :]\n\n\nclass QVariable', '        return token, string[len(token) + 1 :]\n\n\nclass QVariable', True),   # QInteger.check drops a character
     (F, '    string = string.strip()\n    if len(string) == 0:', '    string = string.strip()[0:]\n    if len(string) == 0:', False),   # same text
     (F, '    for t in qtypes:\n        token, string = t.check(string)', '    for t in qtypes:\n        token, string = t.check(string[1:] if t is QVariable else string)', True),   # variable scanner skips a character
+    (F, '        return QInteger(int(string))', '        return QInteger(int(string) + 1)', True),   # an integer literal means the next integer
+    (F, '        string = string[1:-1]\n        return QString(string)', '        string = string[1:]\n        return QString(string)', True),   # the closing quote stays in the string
+    (F, '        if string in namespace:\n            val = namespace[string]\n        return QVariable(string, val)', '        if string in namespace:\n            val = namespace[string]\n        return QVariable(string, None)', True),   # a variable forgets its binding
+    (F, '        namespace[self.name] = self.value\n        return self.value', '        namespace[self.name] = self.value\n        namespace["RETURN"] = self.value\n        return self.value', True),   # reading a variable rebinds RETURN
+    (F, '        if self.name not in namespace:\n            raise QueryInterpretException(', '        if self.name not in namespace:\n            raise KeyError(', True),   # an unknown variable escapes as KeyError
+    (F, '    return namespace["RETURN"]', '    return namespace.get("RETURN", namespace.get("NAME"))', False),   # same value on the path that reaches it
 ]
